@@ -205,6 +205,13 @@ func (i *Interceptor) BindLocalStream(
 		pay := make([]byte, len(payload))
 		copy(pay, payload)
 		attr := maps.Clone(attributes)
+		// check for Close first: with both cases ready select would pick either one, and a packet
+		// queued after Close is never sent
+		select {
+		case <-i.closed:
+			return 0, errPacerClosed
+		default:
+		}
 		select {
 		case i.queue <- packet{
 			writer:     writer,
